@@ -3,11 +3,14 @@
 # checks, undoes the change straight afterwards and regenerates the constants from the clean tree.
 S=$(realpath "$1"); shift
 cd /verif
+# evidence written while a seeded change is applied must not replace the committed evidence
+rm -rf .cache/evidence.bak; cp -r evidence .cache/evidence.bak 2>/dev/null
 git -C /repo apply $S/patch.diff || { echo "patch does not apply"; exit 2; }
 for id in "$@"; do
   out=$(./check $id 2>&1 | grep -E "^(VIOLATION|OK|KNOWN)" | head -3 | tr '\n' ' ')
   echo "$(basename $S) -> $id: $out"
 done
 git -C /repo checkout -- .
+rm -rf evidence; cp -r .cache/evidence.bak evidence 2>/dev/null
 python3 tools/gen_consts.py /repo >/dev/null
 (cd lean && lake build driver >/dev/null 2>&1)
